@@ -1,6 +1,7 @@
 """C09 — callAltTranslation: transcript selection, W>F site enumeration; bounded definitional oracle for the content."""
 from __future__ import annotations
 import types
+import os
 import z3
 from pyvc.contract import Contract, Lemma, register, induction
 from pyvc.core import Unsupported, as_bool
@@ -344,6 +345,257 @@ class FindCodonReassignments(Contract):
                   z3.And(st.w2f, ret.length == st.cnt(st.L),
                          z3.ForAll([q], z3.Implies(z3.And(0 <= q, q < st.L, st.isW(q)), ret.arr[st.cnt(q)] == q))))
 
+
+
+# ----------------------------------------------------------------------------
+# sequence-level W>F reassignment (VariantPeptideDict.translational_modification)
+# ----------------------------------------------------------------------------
+class _Reassignments(View):
+    """result of find_codon_reassignments (its proved contract): n records, record j is W2F at [p_j, p_j+1) with alt F, p strictly
+    increasing, every p_j holds W; none without the flag"""
+    def __init__(self, I, st):
+        self.st = st
+        self.P = I.e.array('all_w_positions')
+
+    def length(self):
+        return self.st.n
+
+    def get(self, j):
+        j = j if is_z3(j) else z3.IntVal(j)
+        return SymObj('VariantRecord', location=SymObj('FeatureLocation', start=self.P[j], end=self.P[j] + 1), alt='F', ref='W',
+                      id=SymObj('W2FId', t=None, of_all=j))
+
+    def sym_binop(self, I, op, other, reflected):
+        if op == '+' and reflected and isinstance(other, list) and not other:
+            return self
+        return NotImplemented
+
+    def sym_truth(self, I):
+        return self.st.n > 0
+
+    def sym_len(self, I):
+        return self.st.n
+
+
+class _Comb(View):
+    """one element of itertools.combinations(reassignments, k): k records in the order of the list"""
+    def __init__(self, st):
+        self.st = st
+
+    def length(self):
+        return self.st.k
+
+    def get(self, t):
+        st = self.st
+        t = t if is_z3(t) else z3.IntVal(t)
+        return SymObj('VariantRecord', location=SymObj('FeatureLocation', start=st.Q[t], end=st.Q[t] + 1), alt='F', ref='W',
+                      id=SymObj('W2FId', t=t), _t=t)
+
+
+class _JoinedIds:
+    def __init__(self, view):
+        self.view = view
+
+
+@register
+class W2FModification(Contract):
+    """for every peptide of the dictionary and every non-empty combination of its W>F reassignments: the modified sequence is the
+    peptide with exactly the chosen tryptophans replaced by F (same length, every other residue unchanged); it is added only if
+    is_valid_seq accepts it, once per metadata of the original peptide, labelled with the original label plus the ids of exactly the
+    chosen reassignments and marked as carrying variants; nothing is removed and the original metadata is not modified"""
+    path, qualname, props = VPD, 'VariantPeptideDict.translational_modification', ('C09', 'C05')
+    assumptions = ('summary: find_codon_reassignments returns one W2F record per W in increasing position (contract FindCodonReassignments)',
+                   'assumed: itertools.combinations(xs, k) yields every k-subset of xs once, each in the order of xs; range(1, n+1) yields 1..n',
+                   'summary: is_valid_seq is its proved contract (C04 DictIsValidSeq) seen as a predicate of the sequence',
+                   'assumed: copy.copy of a metadata object is a new object with the same attribute values; get_key() is a function of the metadata')
+
+    def setup(self, I):
+        e = I.e
+        st = types.SimpleNamespace(log=[], validity=[], joined=None)
+        st.L = e.int('pep_len')
+        e.assume(st.L >= 1)
+        st.seq = PStr.sym(e, 'pep', st.L)
+        st.w2f = e.bool('w2f')
+        st.n, st.k = e.int('n_reassignments'), e.int('k')
+        st.Q = e.array('chosen_positions')
+        st.SL = z3.Function('slot_of_position', I_, I_)
+        t, u = z3.Ints('t_q u_q')
+        e.assume(z3.And(st.n >= 0, z3.Implies(z3.Not(st.w2f), st.n == 0)))
+        def comb_facts():
+            return z3.And(
+                1 <= st.k, st.k <= st.n, st.n <= st.L,
+                z3.ForAll([t], z3.Implies(z3.And(0 <= t, t < st.k), z3.And(0 <= st.Q[t], st.Q[t] < st.L, st.seq.get(st.Q[t]) == ord('W'), st.SL(st.Q[t]) == t))),
+                z3.ForAll([t, u], z3.Implies(z3.And(0 <= t, t < u, u < st.k), st.Q[t] < st.Q[u])))
+        st.comb_facts = comb_facts
+        st.M = e.int('n_metadata')
+        e.assume(st.M >= 0)
+        st.metas = FnView(st.M, lambda m: SymObj('VariantPeptideMetadata', label=SymObj('Label0', m=m if is_z3(m) else z3.IntVal(m)),
+                                                 has_variants=e.bool('had_variants'), _orig=m), tag='metadata of the peptide')
+        st.denylist = SymObj('Denylist')
+        c = self
+
+        class Peptides:
+            def sym_getitem(s_, I2, key):
+                I2.e.prove('C09/w2f-mod/metadata-of-the-original-peptide', key is st.seq)
+                return types.SimpleNamespace(sym_method=lambda I3, name, a, k: st.metas if name == 'values' else (_ for _ in ()).throw(Unsupported(name)))
+
+            def sym_method(s_, I2, name, a, k):
+                if name == 'setdefault' and len(a) == 2 and a[1] == {}:
+                    st.log.append(('setdefault', a[0]))
+                    return Entry(a[0])
+                raise Unsupported(f'peptides.{name}')
+
+        class Entry:
+            def __init__(s_, key):
+                s_.key = key
+
+            def sym_contains(s_, I2, item):
+                return I2.e.bool('label_already_recorded')
+
+            def sym_setitem(s_, I2, key, val):
+                st.log.append(('store', s_.key, key, val))
+
+        class Seqs:
+            def sym_method(s_, I2, name, a, k):
+                if name == 'add':
+                    st.log.append(('seqs.add', a[0]))
+                    return None
+                raise Unsupported(f'seqs.{name}')
+        st.peptides = Peptides()
+        st.self = SymObj('VariantPeptideDict', peptides=st.peptides, seqs=Seqs(), tx_id='ENST_T')
+        st.args = [st.self, st.w2f, st.denylist]
+        self._cur = st
+        return st
+
+    def cond(self, st, i, upto):
+        return z3.And(0 <= st.SL(i), st.SL(i) < upto, st.Q[st.SL(i)] == i)
+
+    def is_substituted(self, st, s, upto):
+        """s = the peptide with the first `upto` chosen positions replaced by F"""
+        i = z3.Int('i_sub')
+        if not isinstance(s, PStr):
+            return z3.BoolVal(False)
+        ln = s.length()
+        return z3.And((ln if is_z3(ln) else z3.IntVal(ln)) == st.L,
+                      z3.ForAll([i], z3.Implies(z3.And(0 <= i, i < st.L),
+                                                s.get(i) == z3.If(self.cond(st, i, upto), ord('F'), st.seq.get(i)))))
+
+    @property
+    def models(self):
+        c = self
+
+        def inst(reg):
+            def find(I, o, a, k):
+                st = c._cur
+                I.e.prove('C09/w2f-mod/reassignments-of-this-peptide-with-the-given-flag', a[0] is st.seq and a[1] is st.w2f)
+                return _Reassignments(I, st)
+            reg.method_('VariantPeptideDict', 'find_codon_reassignments', find)
+
+            def copy_(I, a, k):
+                v = a[0]
+                st = c._cur
+                if v is st.peptides:
+                    n = I.e.int('n_peptides')
+                    I.e.assume(n >= 0)
+                    return FnView(n, lambda i: st.seq, tag='peptides of the dictionary')
+                if isinstance(v, PStr):
+                    return v
+                if isinstance(v, SymObj) and v.cls == 'VariantPeptideMetadata':
+                    return SymObj('VariantPeptideMetadata', **{**v.fields, '_copy_of': v})
+                raise Unsupported(f'copy.copy({v!r})')
+            reg.ext_('copy.copy', copy_)
+
+            def combinations(I, a, k):
+                st = c._cur
+                I.e.prove('C09/w2f-mod/combinations-of-the-reassignments', isinstance(a[0], _Reassignments))
+                st.k = a[1] if is_z3(a[1]) else z3.IntVal(a[1])
+                ncomb = I.e.int('n_combinations')
+                I.e.assume(ncomb >= 1)
+                return FnView(ncomb, lambda j: _Comb(st), tag='combinations')
+            reg.ext_('itertools.combinations', combinations)
+
+            def is_valid(I, o, a, k):
+                st = c._cur
+                I.e.prove('C09/w2f-mod/validity-checked-on-the-fully-substituted-sequence-against-the-denylist',
+                          z3.And(c.is_substituted(st, a[0], st.k), a[1] is st.denylist))
+                st.validity.append(a[0])
+                return I.e.bool('modified_sequence_is_valid')
+            reg.method_('VariantPeptideDict', 'is_valid_seq', is_valid)
+            reg.method_('VariantPeptideMetadata', 'get_key', lambda I, o, a, k: SymObj('MetaKey', of=o))
+
+            def set_guard(name):
+                def h(I, o, v):
+                    I.e.prove('C09/w2f-mod/original-metadata-not-modified', '_copy_of' in o.fields)
+                    o.fields[name] = v
+                return h
+            for nm in ('label', 'has_variants', 'segments', 'orf'):
+                reg._setattr[('VariantPeptideMetadata', nm)] = set_guard(nm)
+        return (inst,)
+
+    # loop 3: for v in comb
+    def havoc3(self, I, env, t):
+        env['seq_mod'] = PStr.sym(I.e, 'seq_mod')
+
+    def inv3(self, I, env, t):
+        st = self._cur
+        return [('prefix-of-the-combination-substituted', self.is_substituted(st, env['seq_mod'], t))]
+
+    def head3(self, I, env, t):
+        I.e.assume(self._cur.comb_facts())
+
+    def init3(self, I, env):
+        I.e.assume(self._cur.comb_facts())
+
+    # loop 4: for metadata in ...values()
+    def head4(self, I, env, m):
+        st = self._cur
+        st.mark = len(st.log)
+
+    def step4(self, I, env, m):
+        st = self._cur
+        ev = st.log[st.mark:]
+        sm = env['seq_mod']
+        sets = [x for x in ev if x[0] == 'setdefault']
+        adds = [x for x in ev if x[0] == 'seqs.add']
+        stores = [x for x in ev if x[0] == 'store']
+        items = [('entry-of-the-modified-sequence-created-or-reused', len(sets) == 1 and sets[0][1] is sm),
+                 ('modified-sequence-registered', len(adds) == 1 and adds[0][1] is sm),
+                 ('sequence-accepted-by-is_valid_seq', any(v is sm for v in st.validity))]
+        for x in stores:
+            md = x[3]
+            ok = isinstance(md, SymObj) and md.fields.get('_copy_of') is not None and x[1] is sm and isinstance(x[2], SymObj) and x[2].fields.get('of') is md
+            items.append(('stored-under-its-own-key-in-the-entry-of-the-modified-sequence', ok))
+            if ok:
+                orig = md.fields['_copy_of']
+                items.append(('copy-of-this-metadata', z3.simplify(orig.fields['_orig'] == m) if is_z3(orig.fields['_orig']) else orig.fields['_orig'] == m))
+                lab = md.fields['label']
+                parts = lab.parts if isinstance(lab, OpaqueStr) else []
+                flat = []
+                for p_ in parts:
+                    flat.extend(p_.parts if isinstance(p_, OpaqueStr) else [p_])
+                # '|'.join(<ids of the combination>) is kept by the engine as ['join', '|', <view of the joined items>]
+                good = (len(flat) == 5 and flat[0] is orig.fields['label'] and flat[1:4] == ['|', 'join', '|'] and isinstance(flat[4], View))
+                if good:
+                    tt = z3.Int('t_id')
+                    it = flat[4].get(tt)
+                    ln = flat[4].length()
+                    good = (isinstance(it, SymObj) and it.cls == 'W2FId' and it.fields['t'] is not None and z3.is_true(z3.simplify(it.fields['t'] == tt))
+                            and z3.is_true(z3.simplify((ln if is_z3(ln) else z3.IntVal(ln)) == st.k)))
+                if not good and os.environ.get('PYVC_DEBUG'): print('LABEL', lab, flat)
+                items.append(('label=original-label|ids-of-exactly-the-chosen-reassignments', good))
+                items.append(('marked-as-carrying-variants', md.fields['has_variants'] is True))
+        items.append(('at-most-one-record-per-metadata', len(stores) <= 1))
+        return items
+
+    @property
+    def loops(self):
+        T = lambda I, env, k: []
+        return {0: LoopSpec(inv=T), 1: LoopSpec(inv=T), 2: LoopSpec(inv=T),
+                3: LoopSpec(inv=self.inv3, havoc=self.havoc3, on_head=self.head3, on_init=self.init3),
+                4: LoopSpec(inv=T, on_head=self.head4, step=self.step4)}
+
+    def post_return(self, I, st, ret):
+        I.e.prove('C09/w2f-mod/returns-nothing', ret is None)
 
 
 # ----------------------------------------------------------------------------
